@@ -3,12 +3,14 @@
 From Coq Require Import ZifyBool ZifyNat ZifyN.
 From PBK Require Import Base Descr Walk Coder Compile CompileChk CompileEquivBase CompileEquivInv.
 
-Ltac invr_solve HR :=
-  destruct HR; constructor; rsimp; auto; try (intros; (congruence || lia)).
-
 Ltac unfold_consts :=
   unfold BITMAP_NA, BITMAP_INDICATOR, BITMAP_WAITING_FOR_BIT, BITMAP_BIT_COUNTING,
          QA_INFO_NA, QA_INFO_WAITING, QA_INFO_PROCESSING in *.
+
+Ltac slia := rsimp; unfold_consts; lia.
+
+Ltac invr_solve HR :=
+  destruct HR; constructor; unfold_consts; rsimp; auto; try (intros; (congruence || lia)).
 
 Section WalkEq.
 Context {C : Type} (P : prims C) (nzf : bool).
@@ -20,22 +22,23 @@ Notation simc_at := (simc_at P).
 Notation Inv := (Inv (C:=C)).
 
 Lemma simc_at_pre_upd (f : regs -> regs) sC gC gI :
-  (StatInv (w_r sC) -> StatInv (f (w_r sC))) ->
-  (forall rI rE, InvR (w_r sC) (ck_ndef (w_c sC)) rI rE -> InvR (f (w_r sC)) (ck_ndef (w_c sC)) (f rI) rE) ->
+  (StatInv (w_r sC) (ck_ndef (w_c sC)) ->
+   StatInv (f (w_r sC)) (ck_ndef (w_c sC)) /\
+   forall rI rE, InvR (w_r sC) (ck_ndef (w_c sC)) rI rE -> InvR (f (w_r sC)) (ck_ndef (w_c sC)) (f rI) rE) ->
   simc gC gI -> simc_at sC (gC (upd_r f sC)) (fun s => gI (upd_r f s)).
 Proof.
-  intros H1 H2 Hg.
-  exact (simc_at_bind P sC (Ok (upd_r f sC)) gC (fun s => Ok (upd_r f s)) gI (simc_at_upd P f sC H1 H2) Hg).
+  intros H1 Hg.
+  exact (simc_at_bind P sC (Ok (upd_r f sC)) gC (fun s => Ok (upd_r f s)) gI (simc_at_upd P f sC H1) Hg).
 Qed.
 
 Lemma simc_at_post_upd (f : regs -> regs) sC resC gI :
-  (forall r, StatInv r -> StatInv (f r)) ->
-  (forall rC nd rI rE, InvR rC nd rI rE -> InvR (f rC) nd (f rI) rE) ->
+  (forall rC nd, StatInv rC nd -> StatInv (f rC) nd /\
+     forall rI rE, InvR rC nd rI rE -> InvR (f rC) nd (f rI) rE) ->
   simc_at sC resC gI ->
   simc_at sC (bind resC (fun s => Ok (upd_r f s))) (fun s => bind (gI s) (fun s' => Ok (upd_r f s'))).
 Proof.
-  intros H1 H2 Hg. apply simc_at_bind; [exact Hg|].
-  intros sC1. apply simc_at_upd; [apply H1|apply H2].
+  intros H1 Hg. apply simc_at_bind; [exact Hg|].
+  intros sC1. apply simc_at_upd. apply H1.
 Qed.
 
 (* ---- recorded handler calls --------------------------------------------------- *)
@@ -104,7 +107,7 @@ Proof.
   - destruct (r_qa (w_r sC) =? QA_INFO_WAITING)%N eqn:E1.
     { eapply simc_at_extI.
       2:{ apply (simc_at_pre_upd (set_qa QA_INFO_PROCESSING) sC (h_add_bitmap_link HC) (h_add_bitmap_link H));
-          [intros HS; exact HS|intros rI rE HR; invr_solve HR|apply add_link_simc]. }
+          [intros HS; split; [exact HS|intros rI rE HR; invr_solve HR]|apply add_link_simc]. }
       intros sI sE [_ HR]. unfold elem_qa, elem_qa_r. rewrite (sa_qa _ _ _ _ HR), EX, E1. reflexivity. }
     destruct (r_qa (w_r sC) =? QA_INFO_PROCESSING)%N eqn:E2.
     { eapply simc_at_extI; [|apply add_link_simc].
@@ -113,7 +116,7 @@ Proof.
     intros sI sE [_ HR]. unfold elem_qa, elem_qa_r. rewrite (sa_qa _ _ _ _ HR), EX, E1, E2. reflexivity.
   - destruct (r_qa (w_r sC) =? QA_INFO_PROCESSING)%N eqn:E2.
     { eapply simc_at_extI.
-      2:{ apply (simc_at_upd P (set_qa QA_INFO_NA) sC); [intros HS; exact HS|intros rI rE HR; invr_solve HR]. }
+      2:{ apply (simc_at_upd P (set_qa QA_INFO_NA) sC). intros HS; split; [exact HS|intros rI rE HR; invr_solve HR]. }
       intros sI sE [_ HR]. unfold elem_qa, elem_qa_r. rewrite (sa_qa _ _ _ _ HR), EX, E2. reflexivity. }
     eapply simc_at_extI; [|apply simc_at_ret].
     intros sI sE [_ HR]. unfold elem_qa, elem_qa_r. rewrite (sa_qa _ _ _ _ HR), EX, E2. reflexivity.
@@ -144,6 +147,101 @@ Proof.
   intros Hdd sC. unfold do_element.
   apply simc_at_bind; [apply elem_assoc_simc|]. intros sC1.
   apply simc_at_bind; [apply elem_qa_simc|]. apply elem_body_simc. exact Hdd.
+Qed.
+
+(* ---- process_bitmap_definition, with the compiler's n_031031 bookkeeping ------ *)
+Lemma bitmap_def_simc id : simc (h_bitmap_def_wrap HC (bitmap_def_step HC id)) (bitmap_def_step H id).
+Proof.
+  intros sC sC' E HS. cbn [chk_handlers h_bitmap_def_wrap] in E. cbv zeta in E.
+  unfold bitmap_def_step at 1 in E. unfold bitmap_def_step_r in E.
+  destruct HS as [HS HL]. unfold BmInv in HS. unfold_consts.
+  destruct (r_bm_state (w_r sC) =? 1)%N eqn:E1.
+  { (* INDICATOR *)
+    destruct (id =? 236000)%N eqn:Ei.
+    { cbn [bind] in E. rsimp_in E. cbn [Z.eqb] in E. unfold cemit in E. injection E as <-.
+      exists (SCons SReset SNil). split; [reflexivity|]. split; [split; [right; right; left; split; reflexivity|exact HL]|].
+      intros sI sE [Hc HR]. rewrite exec_stmts_one. cbn [exec_stmt].
+      unfold bitmap_def_step, bitmap_def_step_r. rewrite (sa_bm_state _ _ _ _ HR). unfold_consts. rewrite E1, Ei.
+      cbn [agree]. split; [exact Hc|]. rsimp. invr_solve HR. }
+    destruct (id =? 237000)%N eqn:Ej.
+    { cbn [bind] in E. rsimp_in E.
+      destruct (r_n031031 (w_r sC) =? 0)%Z eqn:En.
+      - unfold cemit in E. injection E as <-.
+        exists (SCons SReset SNil). split; [reflexivity|]. split; [split; [left; reflexivity|exact HL]|].
+        intros sI sE [Hc HR]. rewrite exec_stmts_one. cbn [exec_stmt].
+        unfold bitmap_def_step, bitmap_def_step_r. rewrite (sa_bm_state _ _ _ _ HR). unfold_consts. rewrite E1, Ei, Ej.
+        cbn [agree]. split; [exact Hc|]. rsimp. invr_solve HR.
+      - destruct (r_n031031 (w_r sC) =? r_n031031 (w_r sC) + 1)%Z eqn:En1; [lia|].
+        rewrite Z.eqb_refl in E. injection E as <-.
+        exists SNil. split; [symmetry; apply stmts_app_nil_r|]. split; [split; [left; reflexivity|exact HL]|].
+        intros sI sE [Hc HR]. cbn [exec_stmts].
+        unfold bitmap_def_step, bitmap_def_step_r. rewrite (sa_bm_state _ _ _ _ HR). unfold_consts. rewrite E1, Ei, Ej.
+        cbn [agree]. split; [exact Hc|]. rsimp. invr_solve HR. }
+    cbn [bind] in E. rsimp_in E. cbn [Z.eqb] in E. unfold cemit in E. injection E as <-.
+    exists (SCons SReset SNil). split; [reflexivity|]. split; [split; [right; right; left; split; reflexivity|exact HL]|].
+    intros sI sE [Hc HR]. rewrite exec_stmts_one. cbn [exec_stmt].
+    unfold bitmap_def_step, bitmap_def_step_r. rewrite (sa_bm_state _ _ _ _ HR). unfold_consts. rewrite E1, Ei, Ej.
+    cbn [agree]. split; [exact Hc|]. rsimp. invr_solve HR. }
+  destruct (r_bm_state (w_r sC) =? 4)%N eqn:E4.
+  { (* WAITING: the compile-time count is 0 *)
+    assert (Hn : r_n031031 (w_r sC) = 0%Z) by lia.
+    destruct (id =? 31031)%N eqn:Ei.
+    { cbn [bind] in E. rsimp_in E. rewrite Hn in E. cbn [Z.add Z.eqb Pos.eqb] in E.
+      unfold cemit in E. injection E as <-.
+      exists (SCons SIncr SNil). split; [reflexivity|]. split; [split; [right; right; right; split; slia|exact HL]|].
+      intros sI sE [Hc HR]. rewrite exec_stmts_one. cbn [exec_stmt].
+      unfold bitmap_def_step, bitmap_def_step_r. rewrite (sa_bm_state _ _ _ _ HR). unfold_consts. rewrite E1, E4, Ei.
+      cbn [agree]. split; [exact Hc|]. rsimp.
+      assert (HW : r_n031031 (w_r sI) = 0%Z /\ r_n031031 (w_r sE) = 0%Z) by (apply (dy_wait _ _ _ _ HR); unfold_consts; lia).
+      invr_solve HR. }
+    cbn [bind] in E. rewrite Hn in E. cbn [Z.eqb] in E. unfold cemit in E. injection E as <-.
+    exists (SCons SReset SNil). split; [reflexivity|]. split; [split; [right; right; left; split; [slia|exact Hn]|exact HL]|].
+    intros sI sE [Hc HR]. rewrite exec_stmts_one. cbn [exec_stmt].
+    unfold bitmap_def_step, bitmap_def_step_r. rewrite (sa_bm_state _ _ _ _ HR). unfold_consts. rewrite E1, E4, Ei.
+    cbn [agree]. split; [exact Hc|]. rsimp.
+    assert (HW : r_n031031 (w_r sI) = 0%Z /\ r_n031031 (w_r sE) = 0%Z) by (apply (dy_wait _ _ _ _ HR); unfold_consts; lia).
+    invr_solve HR. }
+  destruct (r_bm_state (w_r sC) =? 5)%N eqn:E5.
+  { (* COUNTING: the compile-time count is at least 1 *)
+    assert (Hn : (1 <= r_n031031 (w_r sC))%Z) by lia.
+    destruct (id =? 31031)%N eqn:Ei.
+    { cbn [bind] in E. rsimp_in E.
+      destruct (r_n031031 (w_r sC) + 1 =? 0)%Z eqn:En0; [lia|]. rewrite Z.eqb_refl in E.
+      unfold cemit in E. injection E as <-.
+      exists (SCons SIncr SNil). split; [reflexivity|]. split; [split; [right; right; right; split; slia|exact HL]|].
+      intros sI sE [Hc HR]. rewrite exec_stmts_one. cbn [exec_stmt].
+      unfold bitmap_def_step, bitmap_def_step_r. rewrite (sa_bm_state _ _ _ _ HR). unfold_consts. rewrite E1, E4, E5, Ei.
+      cbn [agree]. split; [exact Hc|]. rsimp.
+      assert (HW : r_n031031 (w_r sE) = r_n031031 (w_r sI)) by (apply (dy_count _ _ _ _ HR); unfold_consts; lia).
+      invr_solve HR. }
+    cbn [chk_handlers h_define_bitmap] in E. unfold cemit at 1 in E. cbn [bind] in E. rsimp_in E.
+    destruct (r_n031031 (w_r sC) =? 0)%Z eqn:En0; [lia|].
+    destruct (r_n031031 (w_r sC) =? r_n031031 (w_r sC) + 1)%Z eqn:En1; [lia|].
+    rewrite Z.eqb_refl in E. injection E as <-.
+    exists (SCons (SDefineBitmap (r_reuse (w_r sC))) SNil). split; [reflexivity|]. split; [split; [left; reflexivity|exact HL]|].
+    intros sI sE HI. pose proof HI as [Hc HR]. rewrite exec_stmts_one. cbn [exec_stmt].
+    unfold bitmap_def_step, bitmap_def_step_r. rewrite (sa_bm_state _ _ _ _ HR). unfold_consts. rewrite E1, E4, E5, Ei.
+    rewrite (sa_reuse _ _ _ _ HR).
+    assert (HD : agree (Inv sC) (h_define_bitmap H (r_reuse (w_r sC)) sI) (h_define_bitmap H (r_reuse (w_r sC)) sE)).
+    { apply define_bitmap_agree; [unfold_consts; lia|exact HI]. }
+    destruct (h_define_bitmap H (r_reuse (w_r sC)) sI) as [sI1|e1], (h_define_bitmap H (r_reuse (w_r sC)) sE) as [sE1|e2];
+      cbn [agree bind] in HD |- *; try contradiction; [|exact HD].
+    destruct HD as [Hc1 HR1]. split; [exact Hc1|]. rsimp. invr_solve HR1. }
+  (* not in a definition: the step does nothing *)
+  cbn [bind] in E.
+  assert (Hb : r_bm_state (w_r sC) = 0%N) by lia.
+  destruct (r_n031031 (w_r sC) =? 0)%Z eqn:En.
+  - unfold cemit in E. injection E as <-.
+    exists (SCons SReset SNil). split; [reflexivity|]. split; [split; [left; exact Hb|exact HL]|].
+    intros sI sE [Hc HR]. rewrite exec_stmts_one. cbn [exec_stmt].
+    unfold bitmap_def_step, bitmap_def_step_r. rewrite (sa_bm_state _ _ _ _ HR). unfold_consts. rewrite E1, E4, E5.
+    cbn [agree]. split; [exact Hc|]. rsimp. invr_solve HR.
+  - destruct (r_n031031 (w_r sC) =? r_n031031 (w_r sC) + 1)%Z eqn:En1; [lia|].
+    rewrite Z.eqb_refl in E. injection E as <-.
+    exists SNil. split; [symmetry; apply stmts_app_nil_r|]. split; [split; [left; exact Hb|exact HL]|].
+    intros sI sE [Hc HR]. cbn [exec_stmts].
+    unfold bitmap_def_step, bitmap_def_step_r. rewrite (sa_bm_state _ _ _ _ HR). unfold_consts. rewrite E1, E4, E5.
+    cbn [agree]. split; [exact Hc|exact HR].
 Qed.
 
 End WalkEq.
